@@ -329,7 +329,7 @@ def r3(chk):
     ok = len(est) == 1
     if ok:
         g = _guard_of(est[0][2], fb)
-        ok = any(in_body and norm(a.test) in (f"{best}!=None", f"{best}isnotNone") for a, in_body in g) and norm(est[0][1]) == f"{best}.difficulty"
+        ok = any(in_body and norm(a.test) in (f"{best}!=None", f"{best}isnotNone", f"None!={best}") for a, in_body in g) and norm(est[0][1]) == f"{best}.difficulty"
     ba = [(t, v, s) for t, v, s in stores(fb) if isinstance(t, ast.Attribute) and t.attr == "best_assertion" and norm(t.value) == nodep]
     ok = ok and len(ba) == 1 and norm(ba[0][1]) == best
     chk.ob("C04.R3", f"{RU}:find_best_audit", "estimate-finite-iff-assertion", ok,
@@ -386,13 +386,20 @@ def r5(chk):
             other = [a.arg for a in fn.args.args][1]
             # type tests on `other`
             tests = [norm(c) for c in ast.walk(fn) if isinstance(c, (ast.Compare, ast.Call)) and
-                     (norm(c).startswith(f"type({other})") or norm(c).startswith(f"isinstance({other},"))]
-            same_class = any(t in (f"type({other})=={cls}", f"type({other})==type(self)", f"isinstance({other},{cls})", f"type({other})is{cls}") for t in tests)
+                     (f"type({other})" in norm(c) or norm(c).startswith(f"isinstance({other},")) and not (isinstance(c, ast.Call) and norm(c) == f"type({other})")]
+            def is_class_test(node, klass):
+                if isinstance(node, ast.Call):
+                    return norm(node) == f"isinstance({other},{klass})"
+                if isinstance(node, ast.Compare) and len(node.ops) == 1 and isinstance(node.ops[0], (ast.Eq, ast.Is)):
+                    sides = {norm(node.left), norm(node.comparators[0])}
+                    return sides == {f"type({other})", klass} or (klass == cls and sides == {f"type({other})", "type(self)"})
+                return False
+            same_class = any(is_class_test(c, cls) for c in ast.walk(fn) if isinstance(c, (ast.Compare, ast.Call)))
             # an early `if type(other) == <the sibling>: return False` also pins the class in a two-class hierarchy
             sibling = "NENAssertion" if cls == "NEBAssertion" else "NEBAssertion"
             early = False
             for st in fn.body:
-                if isinstance(st, ast.If) and norm(st.test) in (f"type({other})=={sibling}", f"isinstance({other},{sibling})") \
+                if isinstance(st, ast.If) and is_class_test(st.test, sibling) \
                         and len(st.body) == 1 and isinstance(st.body[0], ast.Return) and norm(st.body[0].value) == "False":
                     early = True
             foreign = sorted({x.attr for x in ast.walk(fn) if isinstance(x, ast.Attribute) and norm(x.value) == other and x.attr not in base_attrs})
@@ -401,7 +408,7 @@ def r5(chk):
             if meth == "same_as":
                 rets = [r for r in walk_local(fn) if isinstance(r, ast.Return)]
                 first_ok = len(rets) == 1 and isinstance(rets[0].value, ast.BoolOp) and isinstance(rets[0].value.op, ast.And) \
-                    and norm(rets[0].value.values[0]) in (f"type({other})=={cls}", f"type({other})==type(self)", f"isinstance({other},{cls})", f"type({other})is{cls}")
+                    and is_class_test(rets[0].value.values[0], cls)
                 if early:
                     first_ok = True
             n += 1
